@@ -80,6 +80,12 @@ def rnd_frame(rng, dll):
     return cid, data, fd
 
 
+def script_uses_local(script):
+    """does the stack itself originate from LOCAL_E during the stream (then its listener must be there from the start: the
+    end-of-message acknowledgements of those transfers are delivered to it)"""
+    return any(e['op'] == 'send' and e['s'] == 0 and e['a'][4] == LOCAL_E and e['a'][1] == 0xD0 for e in script)
+
+
 def gen(rng, k, dll=None):
     dll = dll or rng.choice(['j1939-21', 'j1939-22'])
     nfr = rng.choice([1, 2, 3, 5, 10, 20, 40, 60])
@@ -176,6 +182,24 @@ def gen(rng, k, dll=None):
                                    data=fd_cm(3, sess, 100, 2, 255, 255, 0xFE40 + i), fd=True, via='listener'))
             tt += 200000
         t_stream_end = max(t_stream_end, tt)
+    # directed family (J1939-21): the peer announces a broadcast, sends its first packet, gives up, and announces ANOTHER one of
+    # the same parameter group a moment later (within T1): the second is a message of its own, received exactly as sent
+    expect_cb = []
+    if dll == 'j1939-21' and rng.random() < 0.15:
+        t0 = t_stream_end + 1_000_000
+        first = [rng.randrange(256) for _ in range(20)]
+        second = [rng.randrange(256) for _ in range(rng.choice([16, 20, 23]))]
+        bid = R.ref_can_id(7, 0xEC00 + 255, PEER)
+        did = R.ref_can_id(7, 0xEB00 + 255, PEER)
+        inject.append(dict(t=t0, to=0, id=bid, data=R.ref_bam(20, 3, 0xFE55), via='listener'))
+        inject.append(dict(t=t0 + 60000, to=0, id=did, data=[1] + first[:7], via='listener'))
+        t1 = t0 + rng.choice([150000, 400000])
+        n2 = (len(second) + 6) // 7
+        inject.append(dict(t=t1, to=0, id=bid, data=R.ref_bam(len(second), n2, 0xFE55), via='listener'))
+        for q in range(n2):
+            inject.append(dict(t=t1 + 60000 * (q + 1), to=0, id=did, data=[q + 1] + (second[7 * q:7 * q + 7] + [255] * 7)[:7], via='listener'))
+        expect_cb.append((0xFE55, second))
+        t_stream_end = max(t_stream_end, t1 + 60000 * (n2 + 1))
     # the stack may itself be sending while the stream arrives
     for _ in range(rng.choice([0, 0, 1, 2])):
         ts = rng.randint(1000, max(2000, t_stream_end))
@@ -194,11 +218,21 @@ def gen(rng, k, dll=None):
     script.append(dict(t=t_quiet + 1000, s=1, op='send', a=[0, 0xD1, LOCAL_E, 6, PEER, p1]))
     script.append(dict(t=t_quiet + 1000, s=0, op='send', a=[0, 0xD2, PEER, 6, LOCAL_E, p2]))
     script.sort(key=lambda e: e['t'])
-    stacks = [dict(dll=dll, max_cmdt=rng.choice([1, 2, 8, 255]), subs=[dict(cid=1, filt=LOCAL_E), dict(cid=2, filt=None)],
+    # a minimum interval between connection-mode data packets is configured in a quarter of the scenarios
+    civ = rng.choice([None, None, None, 0.001, 0.005, 0.02])
+    subs0 = [dict(cid=1, filt=LOCAL_E), dict(cid=2, filt=None)]
+    if not script_uses_local(script) and rng.random() < 0.25:
+        # the application binds its listener to the address only AFTER all that traffic has gone by
+        subs0 = [dict(cid=2, filt=None)]
+        script.append(dict(t=t_quiet - 2000, s=0, op='subscribe', cid=1, filt=LOCAL_E))
+        script.sort(key=lambda e: e['t'])
+    stacks = [dict(dll=dll, max_cmdt=rng.choice([1, 2, 8, 255]), cmdt_iv=civ, subs=subs0,
                    cas=[dict(name=77, addr=LOCAL_CA, bypass=True, subs=[3], req=[4])]),
-              dict(dll=dll, max_cmdt=3, subs=[dict(cid=11, filt=PEER)], cas=[], on_bus=False)]
+              dict(dll=dll, max_cmdt=3, cmdt_iv=civ, subs=[dict(cid=11, filt=PEER)], cas=[], on_bus=False)]
     sc = dict(stacks=stacks, lat=[500], jit=[1], script=script, inject=inject, horizon=t_quiet + 5_000_000, dll=dll,
               t_quiet=t_quiet, follow=[p1, p2])
+    if expect_cb:
+        sc['expect_cb'] = expect_cb
     if on_tx:
         sc['on_tx'] = on_tx
     if storm:
@@ -250,6 +284,11 @@ def oracle(sc, res):
             v.append(dict(kind='timer-not-on-time', due=due, next_fire=(fires[i] if i < len(fires) else None)))
             break
         due += TICK
+    for pgn, pl in sc.get('expect_cb', []):
+        got = [tuple(e[7]) for e in res.trace if e[2] == 'cb' and e[1] == 0 and e[3] == 2 and e[5] == pgn]
+        if got != [tuple(pl)]:
+            v.append(dict(kind='well-formed-broadcast-after-an-abandoned-one-not-received-as-sent', pgn=pgn, received=[list(g)[:10] for g in got][:3],
+                          lengths=[len(g) for g in got], expected_length=len(pl)))
     # every session opened by the traffic is released within the longest timeout
     pr = [e for e in res.trace if e[2] == 'probe']
     if pr and pr[0][3][0] != 0:
